@@ -8,10 +8,10 @@ use jj_lib::merge::trivial_merge;
 use serde_json::Value;
 use serde_json::json;
 
-use crate::util::Opts;
-use crate::util::Out;
-use crate::util::Rng;
-use crate::util::catch;
+use jjconf::util::Opts;
+use jjconf::util::Out;
+use jjconf::util::Rng;
+use jjconf::util::catch;
 
 pub fn run(mode: &str, opts: &Opts) -> Result<(), String> {
     match mode {
@@ -106,7 +106,7 @@ fn rand_merge(rng: &mut Rng, v: usize, max_sides: usize) -> Vec<i64> {
 }
 
 fn record(opts: &Opts) -> Result<(), String> {
-    crate::util::quiet_panics();
+    jjconf::util::quiet_panics();
     let what = opts.str("what", "c01");
     let mut out = Out::create(&opts.str("out", "trace.ndjson"))?;
     let seed = opts.u64("seed", 0);
